@@ -34,26 +34,28 @@ def nodes_x(mesh, x: float, tol: float = 1e-8):
     return used[np.abs(X[used, 0] - x) < tol]
 
 
-def make(kind: str, rng, dim: int = 2, et: str | None = None, **kw):
+def make(kind: str, rng, dim: int = 2, et: str | None = None, bc: bool = True, **kw):
     """Returns (simu, info). The simulation carries Dirichlet conditions making it solvable
     (clamped at x=0, prescribed displacement / temperature at x=Lx)."""
     if kind == "beam":
-        from . import _beam_common as bc
+        from . import _beam_common as bcm
 
         theory = kw.get("theory", "EB")
         bdim = kw.get("bdim", 2)
         L = float(rng.uniform(1, 3))
-        simu, mesh, beam, line = bc.make_member(bdim, et or "SEG2", theory, (0, 0, 0), (L, 0, 0), int(rng.integers(2, 5)),
+        simu, mesh, beam, line = bcm.make_member(bdim, et or "SEG2", theory, (0, 0, 0), (L, 0, 0), int(rng.integers(2, 5)),
                                                 0.1, 0.2, 1e4, 0.3)
         n0 = nodes_x(mesh, 0.0)
         nL = nodes_x(mesh, L)
         with quiet():
+            if not bc:
+                return simu, {"kind": kind, "L": L, "Lx": L, "n0": n0, "nL": nL, "dim": bdim, "et": et}
             simu.add_dirichlet(n0, [0] * simu.Get_dof_n(), simu.Get_unknowns())
             if bdim > 1:
                 simu.add_neumann(nL, [-1.0], ["y"])
             else:
                 simu.add_neumann(nL, [1.0], ["x"])
-        return simu, {"kind": kind, "L": L, "n0": n0, "nL": nL}
+        return simu, {"kind": kind, "L": L, "Lx": L, "n0": n0, "nL": nL, "dim": bdim, "et": et}
 
     et = et or ("TRI3" if dim == 2 else "TETRA4")
     mesh, (Lx, Ly, h) = small_mesh(rng, dim, et, size=kw.get("size", 1.0), organised=kw.get("organised", False))
@@ -121,6 +123,8 @@ def make(kind: str, rng, dim: int = 2, et: str | None = None, **kw):
             simu.add_dirichlet(nL, [0.02], ["x"])
         else:
             raise ValueError(kind)
+        if not bc:
+            simu.Bc_Init()
     return simu, info
 
 
